@@ -4,7 +4,9 @@ package c16
 
 import (
 	"context"
+	"encoding/json"
 	"fmt"
+	"os"
 	"slices"
 	"strings"
 	"time"
@@ -33,15 +35,29 @@ type iscenario struct {
 	// FailClients: every upstream query issued on behalf of these client threads fails (one client's path to the DoH service is
 	// broken): failures and successes for one name at the same instant
 	FailClients []int `json:"upstream_fails_for_clients,omitempty"`
+	// ClockStepBy > 0: the wall clock the resolver reads jumps forward by that many seconds (the machine was suspended, the
+	// process was stopped, the clock was set) at a point of the schedule the explorer chooses: after ClockStepAt virtual seconds,
+	// between any two steps of the other threads. All times the monitors use are readings of that same clock.
+	ClockStepBy int `json:"clock_steps_forward_by_s,omitempty"`
+	ClockStepAt int `json:"clock_step_after_s,omitempty"`
+}
+
+// clockRead is one reading of the clock by the library (every reading goes through the hook the harness installs).
+type clockRead struct {
+	thread int
+	seq    int // position in the common order of clock readings and upstream answers
+	value  time.Duration
 }
 
 type upstream struct {
 	key     string
-	at      time.Duration // when the answer was produced
+	at      time.Duration // when the answer was produced (after the run: when the resolver took it over, see runInterOpt)
+	atRaw   time.Duration // when the answer was produced
 	started time.Duration // when the query reached the upstream
 	thread  int           // logical thread that issued it
 	version int
 	failed  bool
+	seq     int // position in the common order of clock readings and upstream answers
 }
 
 type lookup struct {
@@ -51,12 +67,61 @@ type lookup struct {
 	start, end time.Duration
 	err        error
 	content    map[string]string
+	reads      []clockRead // the clock readings made by this lookup's thread during the call
 }
 
 func runInter(sc iscenario, choose vs.Chooser) (ups []upstream, looks []lookup, s *vs.Sched) {
+	return runInterOpt(sc, choose, false)
+}
+
+// ReplayInter re-executes one recorded schedule of one scenario (a replay file of C16I) with the scheduler's trace on and
+// prints every step, the upstream log, the lookups and the monitor's verdict.
+func ReplayInter(file string) {
+	b, err := os.ReadFile(file)
+	if err != nil {
+		ev.ToolError("replay file: %v", err)
+	}
+	var f struct {
+		Key    string `json:"key"`
+		Replay struct {
+			Scenario iscenario `json:"scenario"`
+			Vector   []int     `json:"choice_vector"`
+		} `json:"replay"`
+	}
+	if err := json.Unmarshal(b, &f); err != nil {
+		ev.ToolError("replay file: %v", err)
+	}
+	pos := 0
+	ups, looks, s := runInterOpt(f.Replay.Scenario, func(n int, kind string) int {
+		p := 0
+		if pos < len(f.Replay.Vector) && f.Replay.Vector[pos] < n {
+			p = f.Replay.Vector[pos]
+		}
+		pos++
+		return p
+	}, true)
+	fmt.Printf("recorded violation: %s\nscenario: %+v\nschedule: %v\n--- re-execution on the current tree ---\n", f.Key, f.Replay.Scenario, f.Replay.Vector)
+	for _, l := range s.Trace {
+		fmt.Println("  ", l)
+	}
+	for _, u := range ups {
+		fmt.Printf("upstream %+v\n", u)
+	}
+	for _, l := range looks {
+		fmt.Printf("lookup client%d %s [%v,%v] err=%v %v clock readings %+v\n", l.thread, l.name, l.start, l.end, l.err, l.content, l.reads)
+	}
+	k, w := monitorInter(f.Replay.Scenario, ups, looks, s)
+	fmt.Printf("monitor: %q %s\n", k, w)
+}
+
+func runInterOpt(sc iscenario, choose vs.Chooser, traceOn bool) (ups []upstream, looks []lookup, s *vs.Sched) {
 	srv := &dohmem.Server{}
 	dns.VerifRoundTripper = srv
 	version := 0
+	var skew time.Duration
+	now := func() time.Duration { return vs.Elapsed() + skew }
+	seq := 0
+	var reads []clockRead
 	failing := func() bool {
 		t := int(vs.Elapsed() / time.Second)
 		return sc.FailFrom >= 0 && t >= sc.FailFrom && t < sc.FailTo
@@ -64,7 +129,7 @@ func runInter(sc iscenario, choose vs.Chooser) (ups []upstream, looks []lookup, 
 	starts := map[int]time.Duration{}
 	clientOf := map[int]int{} // scheduler thread -> client index
 	srv.OnQuery = func(q dohmem.Query) {
-		starts[vs.ThreadID()] = vs.Elapsed()
+		starts[vs.ThreadID()] = now()
 		vs.Yield("doh query " + q.Name)
 		if sc.Latency > 0 {
 			vs.Sleep(time.Duration(sc.Latency) * time.Second)
@@ -72,7 +137,8 @@ func runInter(sc iscenario, choose vs.Chooser) (ups []upstream, looks []lookup, 
 	}
 	srv.Zone = func(name string, t uint16) dohmem.Answer {
 		// evaluated after the latency: the answer reflects the zone at answer time
-		u := upstream{key: keyOf(name, t), at: vs.Elapsed(), version: version, failed: failing()}
+		u := upstream{key: keyOf(name, t), at: now(), atRaw: now(), version: version, failed: failing(), seq: seq}
+		seq++
 		u.thread = vs.ThreadID()
 		if ci, ok := clientOf[u.thread]; ok && slices.Contains(sc.FailClients, ci) {
 			u.failed = true
@@ -84,10 +150,23 @@ func runInter(sc iscenario, choose vs.Chooser) (ups []upstream, looks []lookup, 
 		}
 		return buildAnswer(name, t, version)
 	}
-	s = vs.Run(choose, 20000, func() {
-		restore := ech.VerifSetTimeNow(vs.Now)
+	s = vs.RunOpt(choose, 20000, traceOn, func() {
+		restore := ech.VerifSetTimeNow(func() time.Time {
+			reads = append(reads, clockRead{thread: vs.ThreadID(), seq: seq, value: now()})
+			seq++
+			return vs.Now().Add(skew)
+		})
 		defer restore()
 		res, _ := ech.NewResolver("https://doh.test/dns-query")
+		if sc.ClockStepBy > 0 {
+			vs.GoNamed("clock", func() {
+				if sc.ClockStepAt > 0 {
+					vs.Sleep(time.Duration(sc.ClockStepAt) * time.Second)
+				}
+				vs.Yield("clock step")
+				skew += time.Duration(sc.ClockStepBy) * time.Second
+			})
+		}
 		for _, at := range sc.ZoneAt {
 			at := at
 			vs.GoNamed("zone", func() { vs.Sleep(time.Duration(at) * time.Second); version = (version + 1) % len(versions) })
@@ -103,9 +182,15 @@ func runInter(sc iscenario, choose vs.Chooser) (ups []upstream, looks []lookup, 
 					if st.Wait > 0 {
 						vs.Sleep(time.Duration(st.Wait) * time.Second)
 					}
-					l := lookup{thread: ti, vthread: vs.ThreadID(), name: st.Name, start: vs.Elapsed()}
+					l := lookup{thread: ti, vthread: vs.ThreadID(), name: st.Name, start: now()}
+					firstRead := len(reads)
 					r, err := res.Resolve(context.Background(), st.Name)
-					l.end, l.err = vs.Elapsed(), err
+					l.end, l.err = now(), err
+					for _, cr := range reads[firstRead:] {
+						if cr.thread == l.vthread {
+							l.reads = append(l.reads, cr)
+						}
+					}
 					if err == nil {
 						l.content = map[string]string{}
 						for _, t := range []uint16{65, 1, 28} {
@@ -121,6 +206,19 @@ func runInter(sc iscenario, choose vs.Chooser) (ups []upstream, looks []lookup, 
 		}
 		wg.Wait()
 	})
+	// An answer's lifetime starts when the resolver takes it over: at the first clock reading its thread makes after the answer
+	// arrived (the same instant unless the clock stepped in between).
+	for i := range ups {
+		if ups[i].failed {
+			continue // nothing is taken over
+		}
+		for _, cr := range reads {
+			if cr.thread == ups[i].thread && cr.seq > ups[i].seq {
+				ups[i].at = max(ups[i].at, cr.value)
+				break
+			}
+		}
+	}
 	return
 }
 
@@ -147,20 +245,52 @@ func monitorInter(sc iscenario, ups []upstream, looks []lookup, s *vs.Sched) (ke
 		if call == nil {
 			continue
 		}
-		// A SUCCESSFUL answer for the key that was obtained before this lookup began and is still within its smallest TTL when the
-		// query is sent makes the query redundant: whatever else happened meanwhile - first lookups racing between cache.Get and
-		// cache.Add, other lookups of the name failing at the same instant - a fresh answer, once obtained, is what the cache holds
-		// (failures store nothing and evict nothing that is fresh).
+		// The cache holds ONE answer per key. Successful answers for the key that were obtained before this lookup began make the
+		// query redundant when the answer the cache holds is still within its smallest TTL at the time the query is sent -
+		// whatever else happened meanwhile (other lookups of the name failing at the same instant: failures store nothing and
+		// evict nothing that is fresh). WHICH answer the cache holds is certain only without racing first lookups: two lookups
+		// that both miss (between cache.Get and cache.Add) each fetch the key and each install what they got, in the order in
+		// which they finish - not necessarily the order in which the answers were obtained (the zone changes between them, the
+		// clock steps, one of them is not cacheable). The candidates are therefore the LATEST answer and every other answer whose
+		// fetching lookup was still inside Resolve when the latest one was obtained; the query is redundant only if ALL candidates
+		// are still valid. (Without such a race the latest answer is the only candidate.)
+		latest, have := time.Duration(-1), false
+		for i := range ups {
+			rr := &ups[i]
+			if rr.key == q.key && !rr.failed && rr.at < call.start && rr.at > latest {
+				latest, have = rr.at, true
+			}
+		}
+		if !have {
+			continue
+		}
+		allValid, ttlSeen := true, uint32(0)
 		for i := range ups {
 			rr := &ups[i]
 			if rr.key != q.key || rr.failed || rr.at >= call.start {
 				continue
 			}
+			if rr.at != latest {
+				racing := false
+				for j := range looks {
+					if looks[j].vthread == rr.thread && looks[j].start <= rr.started && rr.atRaw <= looks[j].end && looks[j].end >= latest {
+						racing = true
+					}
+				}
+				if !racing {
+					continue
+				}
+			}
 			ttl, bounded := minTTL(versions[rr.version][rr.key])
 			if !bounded || ttl == 0 || rr.at+time.Duration(ttl)*time.Second <= q.started {
-				continue
+				allValid = false
 			}
-			return "redundant-upstream-query:" + q.key, fmt.Sprintf("client lookup begun at %v sent an upstream query for %s at %v although the answer obtained at %v (smallest TTL %d s) was still valid; upstream log: %+v", call.start, q.key, q.started, rr.at, ttl, ups)
+			if rr.at == latest {
+				ttlSeen = ttl
+			}
+		}
+		if allValid {
+			return "redundant-upstream-query:" + q.key, fmt.Sprintf("client lookup begun at %v sent an upstream query for %s at %v although the latest answer, obtained at %v (smallest TTL %d s), was still valid and no lookup that raced with it can have installed another; upstream log: %+v", call.start, q.key, q.started, latest, ttlSeen, ups)
 		}
 	}
 	for _, l := range looks {
@@ -198,12 +328,44 @@ func monitorInter(sc iscenario, ups []upstream, looks []lookup, s *vs.Sched) (ke
 					ok = true
 				}
 			}
+			if ok && !usedWithinLifetime(l, key, got, name, t, ups) {
+				return "expired-answer-used:" + key, fmt.Sprintf("client %d: Resolve(%s) at [%v,%v] returned %q for %s without asking upstream itself; every upstream answer with that content had outlived its smallest TTL (or was not cacheable) at each clock reading the lookup made after the answer was obtained, and when the lookup returned; the lookup's clock readings: %+v; upstream log: %+v", l.thread, l.name, l.start, l.end, got, key, l.reads, ups)
+			}
 			if !ok {
 				return "stale-or-unfounded-answer:" + key, fmt.Sprintf("client %d: Resolve(%s) at [%v,%v] returned %q for %s, which no upstream answer still valid at that time (nor one fetched during the call) contains; upstream log: %+v", l.thread, l.name, l.start, l.end, got, key, ups)
 			}
 		}
 	}
 	return "", ""
+}
+
+// usedWithinLifetime: the lookup either fetched the content itself, or some upstream answer with that content was within its
+// smallest TTL when the lookup returned or at one of the clock readings the lookup made after that answer was obtained (a
+// resolver decides "still fresh" by reading the clock; what it has not looked at since cannot be known to be fresh). A
+// non-cacheable answer (TTL 0) is never within its lifetime for a lookup that did not fetch it.
+func usedWithinLifetime(l lookup, key, got, name string, t uint16, ups []upstream) bool {
+	for _, u := range ups {
+		if u.key != key || u.failed || u.at > l.end || expectedContent(name, t, u.version) != got {
+			continue
+		}
+		if u.thread == l.vthread && u.started >= l.start {
+			return true // fetched by this very lookup
+		}
+		ttl, bounded := minTTL(versions[u.version][key])
+		life := time.Duration(ttl) * time.Second
+		if !bounded {
+			life = 300 * time.Second
+		}
+		if u.at+life > l.end {
+			return true
+		}
+		for _, cr := range l.reads {
+			if cr.seq > u.seq && cr.value < u.at+life {
+				return true
+			}
+		}
+	}
+	return false
 }
 
 func interScenarios(thorough bool) []iscenario {
@@ -233,6 +395,16 @@ func interScenarios(thorough bool) []iscenario {
 	// started meanwhile fails - and the one good answer is what later lookups get
 	out = append(out, iscenario{Threads: [][]istep{{{0, "n1.example"}}, {{0, "n1.example"}, {1, "n1.example"}}, {{1, "n1.example"}}}, Latency: 1, FailFrom: -1, FailClients: []int{0, 2}})
 	out = append(out, iscenario{Threads: [][]istep{{{0, "n1.example"}}, {{0, "n1.example"}, {1, "n1.example"}}, {{0, "n1.example"}}}, Latency: 1, FailFrom: -1, FailClients: []int{0, 2}})
+	// the clock steps forward by 10 s (longer than every TTL but one) at a point the explorer chooses
+	for _, th := range [][][]istep{{progs[0], progs[0]}, {progs[0], progs[1]}, {progs[1], progs[4]}} {
+		for _, lat := range []int{0, 1} {
+			for _, at := range []int{0, 1} {
+				for _, zone := range [][]int{nil, {1}} {
+					out = append(out, iscenario{Threads: th, Latency: lat, ZoneAt: zone, FailFrom: -1, ClockStepBy: 10, ClockStepAt: at})
+				}
+			}
+		}
+	}
 	if thorough {
 		for _, lat := range []int{0, 1} {
 			out = append(out, iscenario{Threads: [][]istep{progs[0], progs[1], progs[4]}, Latency: lat, ZoneAt: []int{1}, FailFrom: -1})
@@ -291,7 +463,7 @@ func RunInter(r *ev.Run) {
 		bound = 3
 	}
 	scs := interScenarios(r.Thorough())
-	r.Rule(fmt.Sprintf("E3: 2 (thorough also 3) client threads, each running a program of 1-2 lookups on colliding keys at chosen virtual times, a zone thread changing the data at t=1 / t=1,4, an upstream that fails during a window, upstream latency 0 or 1 s (time passes while the entry lock is held); the real, instrumented resolver (RWMutex, LRU calls, clock, DoH round trip are scheduling points); ALL schedules with at most %d deviations per scenario; monitors: no deadlock/panic, every answer is contained in an upstream answer that was still within its smallest TTL when the call started or was fetched during the call, errors only when an upstream query of that call failed, and a lookup begun after an answer was obtained sends no upstream query for that key while the answer is within its TTL. distinct = distinct scenarios", bound))
+	r.Rule(fmt.Sprintf("E3: 2 (thorough also 3) client threads, each running a program of 1-2 lookups on colliding keys at chosen virtual times, a zone thread changing the data at t=1 / t=1,4, an upstream that fails during a window, upstream latency 0 or 1 s (time passes while the entry lock is held); the real, instrumented resolver (RWMutex, LRU calls, clock, DoH round trip are scheduling points); ALL schedules with at most %d deviations per scenario; monitors: no deadlock/panic, every answer is contained in an upstream answer that was still within its smallest TTL when the call started or was fetched during the call, errors only when an upstream query of that call failed, a lookup begun after an answer was obtained sends no upstream query for that key while the answer the cache can hold (the latest one, or one installed by a lookup that raced with it) is within its TTL, and a lookup that did not fetch an answer itself saw it within its lifetime when it returned or at a clock reading it made after the answer was obtained (never for TTL 0). 24 scenarios let the wall clock step forward by 10 s at a point the explorer chooses (every clock reading of the resolver is logged by the harness). distinct = distinct scenarios", bound))
 	for _, sc := range scs {
 		r.Eval(fmt.Sprintf("%+v", sc), "")
 	}
@@ -299,7 +471,7 @@ func RunInter(r *ev.Run) {
 	if done != total {
 		r.Cap(fmt.Sprintf("workers explored %d of %d interleaving scenarios", done, total))
 	}
-	execs, points := int64(0), int64(0)
+	execs, points, capped := int64(0), int64(0), int64(0)
 	r.FoldOutcomes(func(label string, n int64) (string, map[string]int64) {
 		parts := strings.Split(label, "|")
 		add := map[string]int64{}
@@ -311,8 +483,14 @@ func RunInter(r *ev.Run) {
 				points += v * n
 			}
 		}
+		if strings.Contains(parts[0], "CAPPED") {
+			capped += n
+		}
 		return parts[0], add
 	})
+	if capped > 0 {
+		r.Cap(fmt.Sprintf("deviation bound %d was not completed in %d of %d scenarios (cap: 30000 executions per scenario); bound 2 is completed in every scenario by the quick tier", bound, capped, total))
+	}
 	r.Set("executions", execs)
 	r.Set("choice_points", points)
 	r.Set("deviation_bound", bound)
